@@ -220,6 +220,7 @@ pub fn world_b_general(property: &str, scenario: &str, seed: u64, run: u64, sc: 
             _ => true,
         });
     }
+    small_windows_b(&mut plan, seed, run, 0.3);
     if !sc.ideal {
         let eps: Vec<usize> = std::iter::once(0).chain(topo.clients.iter().cloned()).collect();
         socket_faults(&mut plan, seed, run, &eps, if sc.heal { sc.fault_until_us } else { sc.horizon_us });
@@ -258,6 +259,17 @@ pub fn socket_faults(plan: &mut Plan, seed: u64, run: u64, eps: &[usize], until_
         let t1 = (t0 + r.log_range(10_000, 5_000_000)).min(until_us);
         plan.push(t0, r.u32() | 1, Op::SockCap { ep, cap: *r.pick(&[1u32, 2, 4, 16]) });
         plan.push(t1, r.u32() | 1, Op::SockCap { ep, cap: u32::MAX });
+    }
+}
+
+/// Window knob (hook H10): in some runs every half connection that Client and Server create
+/// gets frame and packet windows of 4..256 instead of 4096, so that the windows of the real
+/// stack fill up, stall and resynchronise. Drawn from a generator of its own.
+pub fn small_windows_b(plan: &mut Plan, seed: u64, run: u64, p: f64) {
+    let mut r = Rng::keyed(&[seed, run, 0x77696e]);
+    if r.chance(p) {
+        plan.params.insert("b_frame_window".into(), (1u32 << r.range(2, 8)) as f64);
+        plan.params.insert("b_packet_window".into(), (1u32 << r.range(2, 8)) as f64);
     }
 }
 
@@ -1118,11 +1130,36 @@ pub fn world_b_spoof_long(property: &str, scenario: &str, seed: u64, run: u64, _
     plan.push(0, 0, Op::Create { ep: 0 });
     plan.push(0, 2, Op::Link { from: None, to: None, rule: clean_rule(r.range(100, 50_000)) });
     let horizon = 300_000_000;
-    plan.push(r.below(50_000), 3, Op::StepEvery { ep: 0, period_us: r.range(20_000, 100_000), until_us: horizon });
+    let period = r.range(20_000, 100_000);
+    if r.chance(0.4) {
+        // the server application stalls once for 2-25 s while handshakes are pending (a
+        // retransmission that falls due in the meantime is handled late)
+        let t_stall = r.range(500_000, 23_000_000);
+        let d = *r.pick(&[2_100_000u64, 3_000_000, 4_500_000, 8_000_000, 21_000_000, 25_000_000]);
+        plan.push(r.below(50_000), 3, Op::StepEvery { ep: 0, period_us: period, until_us: t_stall });
+        plan.push(t_stall + d, 3, Op::StepEvery { ep: 0, period_us: period, until_us: horizon });
+    } else {
+        plan.push(r.below(50_000), 3, Op::StepEvery { ep: 0, period_us: period, until_us: horizon });
+    }
     for (k, &raw) in topo.raws.iter().enumerate() {
         plan.push(0, 1, Op::Create { ep: raw });
         let t0 = r.range(0, 2_000_000);
-        plan.push(t0, 0x8000_0002, Op::Inject { to: 0, from: raw, bytes: enc_syn(3, 0x2345_6789 + k as u32, 2_000_000, 1000, 1_000_000, 1472), twin: false });
+        let syn = enc_syn(3, 0x2345_6789 + k as u32, 2_000_000, 1000, 1_000_000, 1472);
+        plan.push(t0, 0x8000_0002, Op::Inject { to: 0, from: raw, bytes: syn.clone(), twin: false });
+        // the same request again (same nonce): once at any time before the handshake times out,
+        // once in its last two seconds, or a dozen times in quick succession
+        match r.below(6) {
+            0 => plan.push(t0 + r.range(100_000, 22_000_000), 0x8000_0002, Op::Inject { to: 0, from: raw, bytes: syn.clone(), twin: false }),
+            1 | 2 => plan.push(t0 + r.range(20_050_000, 21_950_000), 0x8000_0002, Op::Inject { to: 0, from: raw, bytes: syn.clone(), twin: false }),
+            3 => {
+                let mut t = t0 + r.range(100_000, 15_000_000);
+                for _ in 0..r.range(2, 14) {
+                    plan.push(t, 0x8000_0002, Op::Inject { to: 0, from: raw, bytes: syn.clone(), twin: false });
+                    t += r.range(1_000, 400_000);
+                }
+            }
+            _ => (),
+        }
         if r.chance(0.6) {
             // a trickle of small frames that mean nothing before the handshake has completed
             let kind = r.below(4);
@@ -1310,6 +1347,7 @@ pub fn world_b_disconnect(property: &str, scenario: &str, seed: u64, run: u64, t
     }
     plan.params.insert("short_ch".into(), 63.0);
     plan.params.insert("fair_after_heal".into(), 0.0);
+    small_windows_b(&mut plan, seed, run, 0.3);
     plan.end_us = horizon;
     plan.sort();
     plan
